@@ -16,8 +16,8 @@ vars == <<cmd, opts, expr, doc, phase, exit, stderrLines, traceback, wrote>>
 Cmds == {"path", "pointer", "patch"}
 \* expression classes per sub-command; "ok*" classes succeed, the others name the library error
 ExprClasses(c) ==
-  CASE c = "path" -> {"ok", "ok-filter", "ok-escape", "ok-empty-result", "ok-empty-query", "ok-union", "ok-intersection", "ok-multiline", "huge-literal", "syntax", "type", "name", "index", "illtyped-only-when-checked", "unterminated", "bad-regex"}
-    [] c = "pointer" -> {"ok", "ok-root", "ok-escape", "ok-uri", "ok-nonascii", "unresolvable-key", "unresolvable-index", "into-scalar", "no-leading-slash"}
+  CASE c = "path" -> {"ok", "ok-filter", "ok-escape", "ok-empty-result", "ok-empty-query", "ok-union", "ok-intersection", "ok-multiline", "ok-membership", "huge-literal", "syntax", "type", "name", "index", "illtyped-only-when-checked", "unterminated", "bad-regex"}
+    [] c = "pointer" -> {"ok", "ok-root", "ok-escape", "ok-uri", "ok-nonascii", "ok-trailing-space", "unresolvable-key", "unresolvable-index", "into-scalar", "no-leading-slash"}
     [] c = "patch" -> {"ok", "ok-root", "ok-empty", "ok-escape", "non-object-member", "test-fails", "missing-target", "not-an-array", "malformed-json", "unknown-op", "missing-member", "bad-pointer", "undecodable"}
 DocClasses == {"object", "array", "object-utf16", "object-utf8-bom", "malformed", "malformed-scalar", "undecodable", "empty-file"}
 
@@ -38,6 +38,7 @@ Init == /\ cmd \in Cmds
         /\ expr \in ExprClasses(cmd)
         /\ doc \in DocClasses
         /\ (opts.stdin => doc \notin {"undecodable", "object-utf16", "object-utf8-bom"})          \* standard input is text in the harness
+        /\ (expr = "ok-trailing-space" => opts.inline)   \* a pointer read from a file ends at the line end: final blanks are the caller's only when inline
         /\ phase = "args"
         /\ exit = 99 /\ stderrLines = 0 /\ traceback = FALSE /\ wrote = FALSE
 
